@@ -352,6 +352,19 @@ def named_cases():
         "api keys <id>.<secret>, the payload template picks the secret with atIndex 1 (splitList …): a key without "
         "separator makes the template function fail — an internal error after the credential was found, not "
         "missing credentials (caught seed C04-e)")
+    # 24: other spellings of a valid token
+    res["24_respelled_tokens_are_no_jwts"] = gen_authn.assemble(
+        [mk("jwt", 0, False), dict(mk("oauth2_introspection", 3, False), src=None), anon],
+        [{"ref": "a0"}, {"ref": "a3"}, {"ref": "a9"}],
+        [rq([("Authorization", "Bearer @Jok@")]), rq([("Authorization", "Bearer @Jokbits@")]),
+         rq(query=[("access_token", "@Jokcrlf@")]), rq(query=[("access_token", "@Jnokidbits@")]),
+         rq(body=gen_authn.render_body("form", [("access_token", ["@Jok2crlf@"])])),
+         rq(body=gen_authn.render_body("json", [("access_token", "@Jok2crlf@")])),
+         rq(rawQuery="access_token=@Jok2bits@")],
+        "a valid JWT respelled (unused bits of the last character of the signature set; a line break inside the "
+        "payload) decodes to the same octets with go-jose's lenient decoder, but is not the canonical serialisation: "
+        "no credential of the jwt kind (argument error, fix 6547ea1) — it is passed on like an opaque token, here to "
+        "the introspection authenticator, which rejects it finally")
     # 23: YAML bodies
     res["23_yaml_body"] = gen_authn.assemble(
         [mk("jwt", 0, False), anon], [{"ref": "a0"}, {"ref": "a9"}],
